@@ -59,3 +59,20 @@ def gen_lock(items):
             raise Fail(f'{iw}: rollback no longer takes the lock guard out of the writer exactly once')
         return D('ROLLBACK_REACQUIRES', 1 if reacq else 0, 'rollback: guard moved (0) / lock acquired again (1)')
     items.append(rollback_moves)
+
+    # try_acquire_lock: where is the guard built? It must exist only after `open_write` succeeded
+    # (otherwise a refused attempt would delete the holder's lock file); built before the flush
+    # (1) a failed flush removes the file again, built after it (0) the file is left behind.
+    def guard_position():
+        dd = 'src/directory/directory.rs'
+        body = fn_body(dd, 'try_acquire_lock')
+        mo = re.search(r'directory\.open_write\(filepath\)', body)
+        mg = re.search(r'DirectoryLockGuard\s*\{', body)
+        mf = re.search(r'write\.flush\(\)', body)
+        if not (mo and mg and mf):
+            raise Fail(f'{dd}::try_acquire_lock: open_write / guard / flush not found in the expected form')
+        q = body.find('?', mo.end())
+        if q == -1 or mg.start() < q:
+            raise Fail(f'{dd}::try_acquire_lock builds the lock guard before open_write has succeeded: a refused acquisition would delete the lock file of the holder (not modelled)')
+        return D('LOCK_GUARD_BEFORE_FLUSH', 1 if mg.start() < mf.start() else 0, 'try_acquire_lock: guard built before (1) / after (0) the flush of the new lock file')
+    items.append(guard_position)
